@@ -671,7 +671,7 @@ def _get_strain_energy(
     # NOTE: Mistake in eq. 11, Kaminski 2004: spurious division by strain rate scale.
     # NOTE: Here we call 'p' the 'stress_exponent' and 'n' the 'deformation_exponent',
     # but in the original they use the variable 'stress_exponent' for 'n' (3.5).
-    for i in range(3):
+    for i in slip_indices[1:]:
         dislocation_density = (1 / crss[i]) ** (
             deformation_exponent - stress_exponent
         ) * np.abs(slip_rates[i] * slip_rate_softest) ** (
